@@ -1,12 +1,12 @@
 #!/usr/bin/env python3
 """C09 (barrier part) - pika::barrier: Lean model Barrier + theorems Props/C09Barrier.lean, tied by E1."""
-import os, sys
+import os, re, sys
 sys.path.insert(0, os.path.join(os.path.dirname(os.path.abspath(__file__)), '..', 'tools'))
 import e1check
 from vlib import tier
 
 
-def gen(rng, cid):
+def gen(rng, cid, timed=False):
     """A well-formed barrier program: thread i stands for w_i participants (sum = expected); in
     every phase each live thread arrives with all its units (arrive_and_wait, arrive(w) + wait, or
     arrive_and_drop for one unit + arrive(w-1) + wait) and waits before its next arrival."""
@@ -51,6 +51,16 @@ def gen(rng, cid):
                 else:
                     progs[t].append(f'arrive {w[t]}')
                 progs[t].append('wait')
+    if timed:
+        # follow-up C09t: most waits get a busy_wait_timeout (1 = fires at once, 2 = never fires,
+        # m >= 3 = fires after m-2 unsuccessful polls of the busy-wait phase)
+        for t in range(k):
+            for j, op in enumerate(progs[t]):
+                if op in ('wait', 'aw') and rng.below(10) < 7:
+                    m = rng.weighted([(1, 2), (2, 2), (3, 3), (4, 2), (5, 1), (8, 1)])
+                    if shape == 'long' and m >= 3 and rng.below(20) != 0:
+                        m = 1 + rng.below(2)    # few real-time sleeps in the 120+ phase cases
+                    progs[t][j] = ('waitT' if op == 'wait' else 'awT') + f' {m}'
     steps = 4000 + 60 * n * phases * 6
     lines = [f'case {cid} n={n} seed={rng.below(1 << 30)} strat={rng.weighted([(0, 5), (1, 3), (2, 2)])} '
              f'tasks={1 if rng.below(8) == 0 else 0} maxsteps={steps}']
@@ -58,6 +68,10 @@ def gen(rng, cid):
         lines.append(f'thread {t}: ' + ' ; '.join(progs[t]) + (' ;' if progs[t] else ''))
     lines.append('endcase')
     return '\n'.join(lines)
+
+
+def gen_timed(rng, cid):
+    return gen(rng, cid, True)
 
 
 def nontrivial(c, r):
@@ -70,14 +84,19 @@ def stats(c, r):
     raw = r['raw']
     return {'phases': raw.count(' bar.phase '), 'cas_miss': raw.count(' bar.miss '), 'half': raw.count(' bar.half '),
             'up': raw.count(' bar.up '), 'drops': raw.count(' bar.adj '), 'polls': raw.count(' bar.polled '),
-            'wrapped': 1 if raw.count(' bar.phase ') > 128 else 0, 'pika_tasks': 1 if ' tasks=1 ' in c else 0}
+            'wrapped': 1 if raw.count(' bar.phase ') > 128 else 0, 'pika_tasks': 1 if ' tasks=1 ' in c else 0,
+            'spin_ok': raw.count(' bar.spinok '), 'timeouts': len(re.findall(r' bar\.block \d+ \d+ 1$', raw, flags=re.M)),
+            'timed_waits': raw.count(' inv.waitT ') + raw.count(' inv.awT ')}
 
 
 e1check.run(dict(
-    prop='C09B', props='C09Barrier', model='barrier', harness='e1/barrier.cpp', bin='e1_barrier',
-    gen=gen, nontrivial=nontrivial, stats=stats,
-    quick=1500, thorough=40000, extra=4000,
-    rule='random well-formed barrier programs (1-12 threads standing for 1-24 participants, 1-300 phases, arrive(n)/wait/arrive_and_wait/arrive_and_drop, callers on OS threads and on pika tasks) on one pika::barrier with a completion function, PRNG schedules (uniform / priority / sticky); non-trivial = some ticket CAS failed or observed a half-taken ticket; distinct = distinct (program, schedule seed) text',
-    assumptions=['barrier::wait with a non-zero busy_wait_timeout (wall-clock bounded spinning before the same polling loop) is not exercised',
+    prop='C09B', props='C09Barrier', model='barriert', harness='e1/barrier.cpp', bin='e1_barrier',
+    nontrivial=nontrivial, stats=stats,
+    # the driver `barriert` runs the fine acceptor (timed busy-wait phase, completion step in three
+    # steps), the coarse acceptor of the first round on the projected log, and the monitors of both
+    batches=[dict(model='barriert', gen=gen, quick=1000, thorough=28000, extra=3000),
+             dict(model='barriert', gen=gen_timed, quick=600, thorough=12000, extra=1500)],
+    rule='batch 0: random well-formed barrier programs (1-12 threads standing for 1-24 participants, 1-300 phases, arrive(n)/wait/arrive_and_wait/arrive_and_drop, callers on OS threads and on pika tasks) on one pika::barrier with a completion function, PRNG schedules (uniform / priority / sticky); non-trivial = some ticket CAS failed or observed a half-taken ticket; distinct = distinct (program, schedule seed) text; batch 1: the same programs with a busy_wait_timeout on most wait / arrive_and_wait calls (time-out firing at once / never / after a chosen number of unsuccessful polls)',
+    assumptions=['the wall clock of yield_while_timeout is not modelled: the model lets the time-out fire at any iteration of the busy-wait loop',
                  'client preconditions of arrive/arrive_and_drop (update <= expected count of the current phase) are part of the acceptor'],
 ))
